@@ -9,8 +9,15 @@ L1: theorems of NfcVerif.Props.C02: for every well-formed image, every message u
     and its torn state is an `example` of Props/C02.lean.
 L2: model vs nfcpy: ordered write commands (= the crash schedule) and, for every cut point,
     what a fresh reader sees.
+    `t12_cache_coherent` + `t12_retry_cut_safe`: after a LOST command the memory reader's picture
+    of the tag equals the tag, and a second assignment on the same NDEF object is again cut safe
+    and ends with exactly the new message.
 L3: real code: power is cut after the k-th state-changing command for every k; a fresh
-    activation must see old / empty / not readable / no NDEF / new.
+    activation must see old / empty / not readable / no NDEF / new.  Second scenario: command k
+    is lost (time-out of the command and its retransmissions, the exception reaches the
+    application), the application assigns the same or another message on the SAME object,
+    optionally cut again after j commands: old-or-empty / empty / new, and exactly the new message
+    when the retry completes.
 """
 import logging
 import os
@@ -26,6 +33,8 @@ THEOREMS = [
     "NfcVerif.C02.t12_cut_safe",
     "NfcVerif.C02.t12_prefix_mixture",
     "NfcVerif.C02.t12_prefix_threshold",
+    "NfcVerif.C02.t12_cache_coherent",
+    "NfcVerif.C02.t12_retry_cut_safe",
 ]
 
 GOOD = ("O", "E", "N", "U", "W")
@@ -38,7 +47,9 @@ def run(ck):
     ck.rule = ("case = (tag kind, memory image, new message, cut point k); every k = 0..n of every write is explored; "
                "layouts as in C01 with NULL-TLV padding 0..7 so that the NDEF TLV takes every alignment in the 4/8-byte "
                "write unit, old/new lengths from {0,1,10,254,255,256,300,capacity}; non-trivial = 0 < k < n "
-               "(a genuinely partial write); distinct by hash of (kind, memory, message, k)")
+               "(a genuinely partial write); distinct by hash of (kind, memory, message, k). Retry cases = (kind, memory, "
+               "first message, number k of the lost command from {0,1,mid,last-1,last,random}, second message same/"
+               "different incl. other length format, second cut j or none)")
     ck.assumptions += [
         "atomicity unit = one tag command (Type 2 WRITE of 4 byte, Type 1 WRITE-E of 1 byte / WRITE-E8 of 8 byte); "
         "a cut happens between commands",
@@ -113,3 +124,66 @@ def run(ck):
     ck.tie("Tlv model vs tt1/tt2: write command order and the reader's view after every cut point",
            cases=sum(len(r.cut_classes or []) for r in runs), disagreements=dis, exhaustive=False)
     ck.notes.append("%d writes, every cut point of each" % len(runs))
+    # ------------------------------------------------------------------ lost command, then a retry on the same object
+    from sims.t12_run import Retry
+    nret = 400 if ck.thorough else 60
+    rruns = []
+    for i in range(nret):
+        kind = ("t2", "t1d", "t1s", "t2")[i % 4]
+        lay = layout_with_old(rng, kind, False, [0, 10, 200, 255, lambda f: f - 4])
+        cap = lay["free"] - (4 if lay["free"] > 256 else 2)
+        n1 = max(1, min(cap, rng.choice([1, 10, 60, 254, 255, 300, cap])))
+        if cap > 330 and not ck.thorough:
+            n1 = min(n1, 300)
+        d1 = bytes(rng.randrange(1, 256) for _ in range(n1))
+        probe = Run(lay, d1)
+        if probe.nd is None or probe.wrote != "ok" or not probe.cmds:
+            continue
+        ncmd = len(probe.cmds)
+        same = rng.random() < 0.5
+        n2 = n1 if same else max(1 if f1 else 0, min(cap, rng.choice([0, 1, 5, 100, 254, 255, 280, cap])))
+        d2 = d1 if same else bytes(rng.randrange(1, 256) for _ in range(n2))
+        ks = sorted(set([0, 1, ncmd // 2, ncmd - 2, ncmd - 1, rng.randrange(ncmd)]) & set(range(ncmd)))
+        if not ck.thorough:
+            ks = rng.sample(ks, min(3, len(ks)))
+        for k in ks:
+            full = Retry(lay, d1, k, d2, None)
+            rruns.append(full)
+            if not full.failed:
+                ck.fail("t12-lost-command-not-reported", "%s: command %d of %d was lost but the write ended %s"
+                        % (kind, k, ncmd, full.first), full.replay())
+                continue
+            n2cmd = len(full.cmds)
+            js = sorted(set([0, 1, n2cmd // 2, n2cmd - 1, rng.randrange(n2cmd + 1)]) & set(range(n2cmd)))
+            if not ck.thorough:
+                js = rng.sample(js, min(2, len(js)))
+            for r in [full] + [Retry(lay, d1, k, d2, j) for j in js]:
+                if r is not full:
+                    rruns.append(r)
+                ck.case(("retry", kind, r.base, d1, k, d2, r.j), True,
+                        "retry:%s:%s" % (kind, "complete" if r.j is None else "cut"),
+                        sample={"kind": kind, "first": n1, "lost": k, "of": ncmd, "second": len(d2), "cut": r.j,
+                                "sees": None if r.seen is None else len(r.seen)} if len(rruns) < 3 else None)
+                what = ("%s: NDEF TLV at %d, old %d bytes; write of %d bytes, command %d of %d lost; same object then "
+                        "writes %d bytes%s: a fresh reader sees %s"
+                        % (kind, lay["off"], len(r.old), n1, k, ncmd, len(d2),
+                           "" if r.j is None else ", cut after command %d" % r.j,
+                           "no NDEF / exception" if r.seen is None else "%d bytes" % len(r.seen)))
+                if r.second.startswith("exc"):
+                    ck.fail("t12-retry-raises", what + " (retry raised %s)" % r.second[4:], r.replay())
+                elif r.j is None:
+                    if r.seen != d2 or r.second != "ok":
+                        ck.fail("t12-retry-after-lost-command-corrupt", what + " instead of the new message", r.replay())
+                elif r.seen is None or r.seen not in (r.seen_after_fail, b"", d2):
+                    ck.fail("t12-retry-after-lost-command-corrupt", what + " (neither what was there before the retry, "
+                            "nor empty, nor the new message)", r.replay())
+    replies = model.ask_many([r.request() for r in rruns])
+    dis = 0
+    for r, rep in zip(rruns, replies):
+        if rep != r.line:
+            dis += 1
+            ck.fail("tie:t12-retry-model-vs-nfcpy", "model %r, implementation %r" % (rep[-300:], r.line[-300:]),
+                    dict(r.replay(), model=rep, impl=r.line))
+    ck.tie("Tlv model vs tt1/tt2: lost command, then a second write on the same NDEF object (commands, reader's view)",
+           cases=len(rruns), disagreements=dis, exhaustive=False)
+
